@@ -422,6 +422,44 @@ func (w *c12World) unsealTree(n *c12NS) bool {
 	return true
 }
 
+// restartCore seals and unseals the whole core (= restart of the active node on
+// the same store), then unseals every separately sealed namespace again.
+func (w *c12World) restartCore() bool {
+	if err := TestCoreSeal(w.v.Core); err != nil {
+		w.r.Inconc("[%s] core seal failed: %v", w.caseID, err)
+		return false
+	}
+	if err := w.v.Core.UnsealWithStoredKeys(c12RootCtx()); err != nil {
+		w.r.Inconc("[%s] core unseal failed: %v", w.caseID, err)
+		w.failed = true
+		return false
+	}
+	w.step("core restarted (seal + unseal)")
+	for _, n := range w.nss {
+		n.Lost = false
+		if n.Sealable {
+			n.Sealed = true
+		}
+	}
+	for _, n := range w.nss { // creation order: parents first
+		if n == w.root || n.Parent.effSealed() {
+			continue
+		}
+		if w.nsObj(n) == nil {
+			n.Lost = true
+			w.r.Count("namespaces_unknown_to_core_after_ancestor_unseal", 1)
+			w.step("namespace %s is unknown to the core after the restart", n.Path)
+			continue
+		}
+		if n.Sealable && !w.unsealNS(n) {
+			w.step("namespace %s stays sealed after the restart", n.Path)
+		}
+	}
+	w.sync()
+	w.r.Count("core_restarts", 1)
+	return true
+}
+
 // ---------------------------------------------------------------- mounts and prefixes
 
 func (w *c12World) newTag() string {
@@ -1120,8 +1158,8 @@ var (
 
 // c12Build boots a core and generates a world: <= 6 namespaces on <= 3 levels
 // (some with their own seal), sibling / multi-segment / equally named mounts.
-func c12Build(t *testing.T, r *kit.Result, rng *kit.Rand, caseID string, transactional bool) *c12World {
-	v := vBoot(t, vOpts{Transactional: transactional})
+func c12Build(t *testing.T, r *kit.Result, rng *kit.Rand, caseID string, transactional bool, cache ...bool) *c12World {
+	v := vBoot(t, vOpts{Transactional: transactional, Cache: len(cache) > 0 && cache[0]})
 	w := &c12World{t: t, v: v, r: r, rng: rng, caseID: caseID, canary: map[string]c12Owner{}}
 	w.root = &c12NS{Path: "", Name: ""}
 	w.nss = []*c12NS{w.root}
